@@ -272,6 +272,10 @@ class ModelBase:
     def call_builtin(self, interp, st, name, args, kwargs, node, frame):
         d = self.deps_of(args, kwargs)
         a0 = args[0] if args else None
+        # projections that forget part of a value: iterating a dict yields its keys only; len / bool / type forget the content
+        if a0 is not None and ((name in ('sorted', 'list', 'tuple', 'set', 'frozenset', 'iter') and a0.ty == 'dict') or name in ('len', 'bool', 'type')):
+            suffix = '#keys' if name not in ('len', 'bool', 'type') else f'#{name}'
+            d = frozenset((x + suffix) if x.startswith('param:') and '#' not in x else x for x in d)
         if name == 'len':
             return self.len_of(interp, st, a0, node).w(deps=d)
         if name == 'range':
